@@ -77,7 +77,8 @@ NewArena ==
     cyc |-> [valid |-> FALSE, H |-> 0, A |-> 0, wokeDebt |-> FALSE, negAdj |-> FALSE],
     \* the sleep promise after an atomic cycle: threshold (x16) and allocations since
     slp |-> [valid |-> FALSE, T |-> 0, A |-> 0],
-    swAllocs |-> 0 ]          \* allocations made while this cycle was Sweeping (not swept, hence not "survivors")
+    swAllocs |-> 0,           \* allocations made while this cycle was Sweeping (not swept, hence not "survivors")
+    swValid |-> TRUE ]        \* ... unless a collect_debt call may have crossed a whole cycle since they were counted
 
 Init0 ==
   [ ar |-> <<>>,              \* arena number -> arena shadow
@@ -365,7 +366,7 @@ OnCallEnd(m, e, i) ==
       \* with a debt that the destructs and releases observed during it alone pay for.  Survivors are what the sweep
       \* kept: everything counted now except what was allocated while Sweeping.
       incFinish == ok /\ pk = "exact" /\ before # "Sleeping" /\ after = "Sleeping" /\ e.kind \in {"cycle_debt", "finish_cycle"}
-                   /\ m.callDebtQ <= m.callCredQ
+                   /\ m.callDebtQ <= m.callCredQ /\ m.ar[a].swValid /\ m.ar[a].swAllocs <= e.count
       slp2 == IF ranAtomic /\ pk = "exact"
               THEN [valid |-> TRUE, T |-> MaxI(e.count * pc.sf, 16 * pc.ms), A |-> 0]
               ELSE IF incFinish
@@ -377,6 +378,10 @@ OnCallEnd(m, e, i) ==
                        !.ar[a].adopted = IF after = "Sleeping" THEN {} ELSE @,
                        !.ar[a].wadopted = IF after = "Sleeping" THEN {} ELSE @,
                        !.ar[a].swAllocs = IF after = "Sweeping" THEN @ ELSE 0,
+                       \* collect_debt may run Sweeping -> Sleeping -> Marking -> Sweeping in one call: the sweep it ends in
+                       \* need not be the one whose allocations were counted
+                       !.ar[a].swValid = IF after # "Sweeping" THEN TRUE
+                                         ELSE IF e.kind = "collect_debt" /\ before = "Sweeping" /\ m.ar[a].swAllocs > 0 THEN FALSE ELSE @,
                        !.ar[a].mutSinceWake = IF began THEN FALSE ELSE @]
   IN m5
 
